@@ -22,7 +22,19 @@ def main():
     mod = importlib.import_module(f'harness.props.{a.pid.lower()}')
     replay = json.load(open(a.replay)) if a.replay else None
     ctx = core.Ctx(a.pid, a.tier, seed, replay)
+    pre_fail = []
+    if a.pid == 'C03':
+        # the generated part of the model is re-derived from the current source before anything is built
+        try:
+            from harness import gen_interp
+            changed, _ = gen_interp.regenerate()
+            if changed: print('C03: lean/PyhfGen/Interp.lean regenerated from the interpolator sources (content changed)')
+        except Exception as e:  # noqa — the code left the subset the translator handles
+            import traceback
+            pre_fail.append({'kind': 'translator', 'what': f'symbolic execution of the interpolator sources failed: {type(e).__name__}: {str(e)[:200]}',
+                             'log_tail': traceback.format_exc()[-800:]})
     gate = core.proof_gate(a.pid, thorough=(a.tier == 'thorough'))
+    gate['failures'] = pre_fail + gate['failures']
     try:
         mod.run(ctx)
     except core.LeanError as e:
